@@ -24,7 +24,9 @@ def config(quick):
     sa = {"Attrs": [(1, 1), (3, -1)], "CtxKeys": [(1, 0)]}
     return dict(max_loggers=2, init_level=5, names=["a"], bool_lists=[[], [False]], layouts=[""],
                 # (the last list: bare key, value pairs among New's arguments, in unsorted order)
-                opt_lists=[[], [opt("Attrs", 2, 2)], [opt("Attrs", 1, 7), opt("Attrs", 3, -2)], [opt("KV", 5, 4), opt("KV", 1, 7)]],
+                opt_lists=[[], [opt("Attrs", 2, 2)], [opt("Attrs", 1, 7), opt("Attrs", 3, -2)], [opt("KV", 5, 4), opt("KV", 1, 7)],
+                           # attributes given by an option AND as bare pairs in one New call (one key in both)
+                           [opt("Attrs", 2, 2), opt("Attrs", 4, 1), opt("KV", 5, 4), opt("KV", 2, 9)]],
                 setter_args=sa, acts=["Set", "With", "New", "LogM", "SetAttrsR"], probe_sevs=[4], max_list=2,
                 flag_sets=[["attrsR"], ["date", "attrsR"]],
                 groups=GROUPS, ctx_vals=CTX_VALS[:2] if quick else CTX_VALS,
